@@ -38,6 +38,10 @@ def build_obj(spec):
         o = Amplitude(f"{tensor_names.gs_amplitude}1cc", t[:h], t[h:])
     elif kind == "Y":
         o = Amplitude(tensor_names.right_adc_amplitude, t[:h], t[h:])
+    elif kind == "Yh":     # IP / EA amplitude vectors: an empty index group
+        o = Amplitude(tensor_names.right_adc_amplitude, (), t)
+    elif kind == "Xp":
+        o = Amplitude(tensor_names.left_adc_amplitude, t, ())
     elif kind == "e":
         o = NonSymmetricTensor(tensor_names.orb_energy, t[:1])
     elif kind == "X":
@@ -61,7 +65,7 @@ def gen_cases(tier, seed):
         for _t in range(rng.randint(1, 3)):
             objs = []
             for _o in range(rng.randint(1, 3)):
-                k = rng.choice(["V", "f", "v", "t", "tcc", "Y", "e", "X", "d", "p"])
+                k = rng.choice(["V", "f", "v", "t", "tcc", "Y", "e", "X", "d", "p", "Yh", "Xp"])
                 n = {"V": 4, "v": 4, "t": 4, "tcc": 2, "Y": 2, "f": 2, "e": 1, "d": 2, "p": 2}.get(k, rng.randint(1, 3))
                 idxs = [rng.randrange(len(POOL)) for _ in range(n)]
                 objs.append([k, idxs, rng.choice([1, 1, 1, 2])])
@@ -134,6 +138,6 @@ def check(case):
 CHECKS = {
     "latex.roundtrip": {
         "function": "adcgen.func:import_from_sympy_latex", "cases": gen_cases, "check": check,
-        "bound": "sums of <= 3 terms of <= 3 objects (ERI, Coulomb, Fock, t / t-cc / ADC amplitudes, densities, orbital energies, deltas, unknown tensors) with exponents <= 2, rational and sqrt prefactors, orbital energy denominators, spin labelled and numbered indices; plus a symbolic denominator and an operator / normal ordered product",
+        "bound": "sums of <= 3 terms of <= 3 objects (ERI, Coulomb, Fock, t / t-cc / ADC amplitudes incl. vectors with an empty upper or lower index group, densities, orbital energies, deltas, unknown tensors) with exponents <= 2, rational and sqrt prefactors, orbital energy denominators, spin labelled and numbered indices; plus a symbolic denominator and an operator / normal ordered product",
     },
 }
